@@ -28,9 +28,21 @@ def anychars(n):
     return [sym_char() for _ in range(n)]
 
 
-def families(tier, which=("any", "kwarg", "digits", "octal", "words")):
+def families(tier, which=("any", "kwarg", "digits", "octal", "words", "long")):
     """yields (name, spec, assumptions)"""
     q = tier == "quick"
+    if "long" in which:
+        # long words: N ASCII characters, one arbitrary code point, a short tail -- as an unknown word, as a bad argument and as
+        # a good string argument; any fixed-size handling of echoed or stored text (clipping, buffers) is crossed by some N
+        for n in (range(1, 100, 2) if q else range(1, 140)):
+            c = sym_char()
+            yield ("longword%d" % n, ["-" + "y" * n, c, "z"], [char_valid(c), c != 32, c != 9, c != 10, c != 13, c != 41])
+        for n in (range(2, 100, 3) if q else range(1, 140)):
+            c = sym_char()
+            yield ("longarg%d" % n, ["-uid " + "x" * n, c, "z"], [char_valid(c), c != 32, c != 9, c != 10, c != 13, c != 41])
+            if not q:
+                c2 = sym_char()
+                yield ("longname%d" % n, ["-name " + "x" * n, c2, "z -fprint " + "f" * n, c2], [char_valid(c2), c2 != 32, c2 != 9, c2 != 10, c2 != 13, c2 != 41, c2 != 39, c2 != 34])
     if "any" in which:
         for L in range(0, (4 if q else 6) + 1):
             yield ("any%d" % L, anychars(L) if L else [""], [])
